@@ -48,7 +48,9 @@ def cal_thread(rng, c, nbase):
             continue
         pl = re.sub(r'^cal (\w+) 0 ', 'cal \\1 %d ' % c, pl) if not pl.startswith('cal add ') and not pl.startswith('cal new_') and not pl.startswith('cal solve') else re.sub(r'^cal (\w+) 0 ', 'cal \\1 %d ' % sc.n, pl)
         L.insert(rng.randint(3, len(L)), pl)
-    L += ['cal solve %d' % sc.n, 'cal add_calibration %d %s %d' % (c, h('a'), sc.n), 'cal add_calibration %d %s %d' % (c, h('b'), sc.n)]   # second add: new_t no longer solved -> fails or re-adds
+    L += ['cal solve %d' % sc.n, 'cal add_calibration %d %s %d' % (c, h('a'), sc.n), 'cal add_calibration %d %s %d' % (c, h('b'), sc.n)]
+    # solved again and stored over itself under the name the library hands out (its own string)
+    L += ['cal solve %d' % sc.n, 'cal add_calibration_own %d 0 %d' % (c, sc.n), 'cal find_calibration %d %s' % (c, h('a'))]   # second add: new_t no longer solved -> fails or re-adds
     L += [sc.apply_line(0, sc.random_dut()), 'cal property %d 0 set %s' % (c, h('k.l[2]=v')), 'cal property %d -1 set %s' % (c, h('g=1')), 'cal savestr %d' % c,
           'cal delete_calibration %d 0' % c, 'cal get_info %d 0' % c, 'cal get_calibration_end %d' % c, 'cal delete_parameter %d 4' % c, 'cal new_free %d' % sc.n, 'cal free %d' % c]
     return L
@@ -85,7 +87,7 @@ def interleave(rng, threads):
     return out
 
 
-YAML_LINE = re.compile(r'^(cal (savestr|loadstr|save|load|resave) |pt .*\b(export|import|yamltree)\b)')
+YAML_LINE = re.compile(r'^(cal (savestr|loadstr|save|load|resave) |pt .*\b(export|import|importf|yamltree)\b)')
 
 
 def msan_stage(chk, rng, n_hist, n_num):
